@@ -125,6 +125,14 @@ func runLifetime(fs *simos.FS, w *Workload, from int, startNanos int64, model *M
 						}
 					}
 				}
+			case "destroy":
+				lt.marks[i].issue = fs.Marker(fmt.Sprintf("issue:%d", i))
+				e := n.Destroy(op.Key)
+				if e == nil {
+					live.Destroy(op.Key)
+				}
+				lt.marks[i].ok = e == nil
+				lt.marks[i].ack = fs.Marker(fmt.Sprintf("ack:%d:%v", i, e == nil))
 			case "query":
 				n.Query(op.Q)
 			case "sleep":
